@@ -216,6 +216,8 @@ pub fn modify_matrix(opts: &Opts, st: &mut Stats, thorough: bool) -> Vec<History
                 [json!(["appr1", "carol", "dave"]), json!(["exec1", "dave"]), json!("0.010"), json!("feeb"), json!("0.02"), json!("feea"), json!(["kyc"]), json!(["acc"])],
                 [json!(["carol"]), json!(["dave"]), json!("0.5"), json!("feea"), json!("0.5"), json!("feeb"), json!([]), json!([])],
                 [json!([]), json!([]), json!(""), json!(""), json!(""), json!(""), json!(["a", "b"]), json!(["c"])],
+                // rates that differ from the stored ones only beyond their last written decimal
+                [json!(["appr1", "carol"]), json!(["exec1"]), json!("0.014"), json!("feea"), json!("0.0249"), json!("feeb"), json!([]), json!([])],
                 // cross combinations: one list empty while the other is supplied non-empty; duplicated entries
                 [json!([]), json!(["exec1", "dave"]), json!("0.01"), json!("feeb"), json!("0.020"), json!("feeb"), json!([]), json!([])],
                 [json!(["appr1", "appr1", "carol", "carol"]), json!([]), json!("0.01"), json!(""), json!(""), json!("feea"), json!(["kyc", "kyc"]), json!(["acc"])],
@@ -290,8 +292,8 @@ pub fn version_matrix(opts: &Opts, st: &mut Stats) -> Vec<History> {
     // {absent, present} attribute lists, plus the invalid forms
     let mut msgs: Vec<Value> = vec![];
     for ap in [None, Some(json!(["appr1", "dave"]))] {
-        for af in [None, Some(("", "")), Some(("0.03", "feeb"))] {
-            for bf in [None, Some(("", "")), Some(("0.04", "feea"))] {
+        for af in [None, Some(("", "")), Some(("0.03", "feeb")), Some(("0.010", "feeb"))] {
+            for bf in [None, Some(("", "")), Some(("0.04", "feea")), Some(("0.02", "carol"))] {
                 for at in [None, Some((json!(["kyc"]), json!([])))] {
                     let mut o = serde_json::Map::new();
                     if let Some(a) = &ap {
